@@ -133,3 +133,11 @@ def nominal_requests_v1():
         "getPubKey": {"command": "getPubKey", "version": 1, "keyId": K_AUTH},
         "sign": {"command": "sign", "version": 1, "keyId": K_UNAUTH, "message": "aa" * 32},
     }
+
+
+def check_sim(w):
+    """A bug inside the simulated device must never be mistaken for behaviour of the code under
+    test: it is a harness error."""
+    if w.sim_errors:
+        from .core import HarnessError
+        raise HarnessError("simulated device raised: %s" % w.sim_errors[0])
